@@ -8,9 +8,12 @@ CONSTANTS
   PopHead = TRUE
   MaxCalls = 1
   WakeCheck = TRUE
+  Tids = {i0, i1, i2}
+  GiveBack = TRUE
 INVARIANT ResolveReturns
 INVARIANT NoLostWakeup
 INVARIANT RequestOut
 INVARIANT Recorded
 INVARIANT SnlFits
+SYMMETRY TidSym
 CHECK_DEADLOCK FALSE
